@@ -377,8 +377,8 @@ def epochs(inst, row, d):
 # levels over non-NULL values only
 NO_NULL_ROWS = {"arr_intersect", "arr_subset", "cosine", "pairwise"}
 COQ_KINDS = {"null", "exact", "literal", "reversed", "metric", "distance_function", "absdiff", "pctdiff", "timediff",
-             "arr_intersect", "arr_subset", "compose"}
-BUILTIN_FNS = {"levenshtein", "jaccard", "jaro_similarity", "jaro_sim", "jaro_winkler_similarity", "jaro_winkler"}
+             "arr_intersect", "arr_subset", "compose", "pairwise"}
+BUILTIN_FNS = {"levenshtein", "damerau_levenshtein", "jaccard", "jaro_similarity", "jaro_sim", "jaro_winkler_similarity", "jaro_winkler"}
 
 
 def pyval(v):
@@ -407,37 +407,40 @@ def coqable(v):
     return True
 
 
-def oracle_rows(inst, row, d, table):
-    """entries of the per-case oracle table for named functions without an executable meaning in Coq"""
+def epoch_sql(inst, d, side):
+    """SQL of the epoch sub-expression of a date/time-difference level (the part the generator term calls
+    epoch(parse(col, fmt)) / epoch(col)); evaluated by the engine, its value is passed to Coq as an input"""
+    m = inst.meta
+    ep = T.FN[d]["epoch"]
+    if not m["is_string"]:
+        return f'{ep}("ts_{side}")'
+    pf = T.FN[d]["parse_date" if m["is_date"] else "parse_ts"]
+    fmt = m["fmt"] or T.FN[d]["date_fmt" if m["is_date"] else "ts_fmt"]
+    return f"{ep}({pf}(\"dob_{side}\", '{fmt}'))"
+
+
+def oracle_rows(inst, row, d, table, engine_epochs=None):
+    """entries of the per-case table for named functions without an executable meaning in Coq.  For the date levels the
+    epochs are the ENGINE's own values (exact rationals of its doubles): Coq then checks the abs/minus/<= arithmetic and the
+    seconds conversion; the python epoch is only the independent documented reference (doc_level)."""
     k, m = inst.kind, inst.meta
     rows = []
-    if k in ("metric", "distance_function"):
-        f = None
-        if k == "metric" and m["role"] == "damerau_levenshtein":
-            f = T.FN[d]["damerau_levenshtein"]
-        if k == "distance_function" and m["function"] == "damerau_levenshtein":
-            f = "damerau_levenshtein"
-        if f:
-            c = inst.cols[0]
-            a, b = (apply_ops(x, c.ops) for x in row[c.name])
-            if a is not None and b is not None:
-                rows.append((f, [pyval(a), pyval(b)], T.v_int(O.dam_lev(a, b))))
     if k == "timediff":
-        ea, eb = epochs(inst, row, d)
+        ea, eb = engine_epochs
         if m["is_string"]:
             pf = T.FN[d]["parse_date" if m["is_date"] else "parse_ts"]
             fmt = m["fmt"] or T.FN[d]["date_fmt" if m["is_date"] else "ts_fmt"]
-            for s, e in zip(row["dob"], (ea, eb)):
-                if s is None:
+            for s_, e in zip(row["dob"], (ea, eb)):
+                if s_ is None:
                     continue
-                parsed = T.v_null() if e is None else T.v_str("ts:" + s)
-                rows.append((pf, [pyval(s), T.v_str(fmt)], parsed))
+                parsed = T.v_null() if e is None else T.v_str("ts:" + s_)
+                rows.append((pf, [pyval(s_), T.v_str(fmt)], parsed))
                 if e is not None:
-                    rows.append((T.FN[d]["epoch"], [parsed], T.v_int(e)))
+                    rows.append((T.FN[d]["epoch"], [parsed], T.v_num(Fraction(e))))
         else:
-            for s, e in zip(row["ts"], (ea, eb)):
-                if s is not None:
-                    rows.append((T.FN[d]["epoch"], [pyval(s)], T.v_int(e)))
+            for s_, e in zip(row["ts"], (ea, eb)):
+                if s_ is not None and e is not None:
+                    rows.append((T.FN[d]["epoch"], [pyval(s_)], T.v_num(Fraction(e))))
     return rows
 
 
@@ -499,8 +502,19 @@ def level_stage(ctx: Ctx, insts, tabs, dialects):
                             got.append("error")
                             errs[i] = str(e2)[:200]
                 hdr = [(s, c) for c in tabs[tname][0] for s in (True, False)]
+                eng_epochs = None
+                if inst.kind == "timediff":
+                    try:
+                        eng_epochs = eng.eval(tname, [epoch_sql(inst, d, "l"), epoch_sql(inst, d, "r")])
+                        for i2, (ee, r2) in enumerate(zip(eng_epochs, rows)):
+                            pe = epochs(inst, r2, d)
+                            for x_, y_ in zip(ee, pe):
+                                ctx.hist("engine_epoch_vs_python_epoch", "equal" if (x_ is None and y_ is None) or (x_ is not None and y_ is not None and float(x_) == float(y_)) else "DIFFERENT")
+                    except Exception as e:
+                        ctx.obligation(f"engine epochs for {inst.key} on {d}", False, str(e)[:300])
+                        eng_epochs = None
                 coq_rows, idx = [], []
-                use_coq = gen is not None and inst.kind in COQ_KINDS and not (inst.kind == "distance_function" and inst.meta["function"] not in BUILTIN_FNS | {"damerau_levenshtein"})
+                use_coq = gen is not None and inst.kind in COQ_KINDS and not (inst.kind == "distance_function" and inst.meta["function"] not in BUILTIN_FNS)
                 for i, r in enumerate(rows):
                     doc = docs[i]
                     key = (d, inst.key, tname, i)
@@ -528,7 +542,9 @@ def level_stage(ctx: Ctx, insts, tabs, dialects):
                         types = tabs[tname][0]
                         vs = [T.coq_val(pyval(float(r[c][0 if s else 1]) if types[c] == "DOUBLE" and isinstance(r[c][0 if s else 1], int)
                                               else r[c][0 if s else 1])) for s, c in hdr]
-                        orc = coq_list([coq_orow(o) for o in oracle_rows(inst, r, d, tname)], "orow")
+                        if inst.kind == "timediff" and eng_epochs is None:
+                            continue
+                        orc = coq_list([coq_orow(o) for o in oracle_rows(inst, r, d, tname, eng_epochs[i] if eng_epochs else None)], "orow")
                         coq_rows.append(f"({coq_list(vs, 'val')}, {orc}, {TVC[got[i]]}%nat)")
                         idx.append(i)
                         # the python oracle is a second, independent reference
@@ -570,6 +586,13 @@ def level_stage(ctx: Ctx, insts, tabs, dialects):
 def near_boundary(inst, r, d):
     """metric value within 1e-9 of the threshold but not exactly representable (float noise)"""
     k, m = inst.kind, inst.meta
+    if k == "pairwise" and m["function"] in ("jaro", "jaro_winkler"):
+        a, b = r["arr"]
+        if not a or not b:
+            return False
+        v = max(Fraction(O.METRICS[m["function"]](x, y)) for x in a for y in b)
+        t = Fraction(repr(m["threshold"])) if isinstance(m["threshold"], float) else Fraction(m["threshold"])
+        return (v == t and v.denominator & (v.denominator - 1) != 0) or (v != t and abs(v - t) < Fraction(1, 10 ** 9))
     if k in ("metric", "distance_function"):
         role = m.get("role") or O.SQL_FN.get(m.get("function"))
         if role in ("jaro", "jaro_winkler", "jaccard"):
